@@ -38,6 +38,24 @@ theorem c04_keeps_iff_referenced (w : Wrapper) : keeps w = anyReferenced w := by
 theorem c04_locked_noop (s : State) (h : s.locks > 0) : gcStep s = (s, []) := by
   exact gcStep_locked s h
 
+/-- translator obligation: the lock is a counter - `__init__` starts it at 0, `__enter__` adds one,
+    `__exit__` takes one off (read from /repo's source on every run) -/
+theorem c04_lock_is_counter :
+    Gen.gcLockInit = some 0 ∧ Gen.gcLockEnterDelta = some 1 ∧ Gen.gcLockExitDelta = some (-1) := by
+  decide
+
+/-- … so for every properly nested use of `with _wrapper_cache:` - any depth, any order - the
+    counter equals the number of blocks that are open: collections stay switched off until the
+    OUTERMOST block is left, and are on again afterwards -/
+theorem c04_lock_counts_open_blocks (ops : List LockOp) (k : Nat) (h : openBlocks 0 ops = some k) :
+    lockCount 1 (-1) 0 ops = (k : Int) := by
+  simpa using lockCount_openBlocks ops 0 k h
+
+/-- a lock that only remembers "locked / not locked" (enter sets 1, exit sets 0 - modelled here as
+    the counter clamped by an exit to 0) would re-enable collections inside an outer block: with a
+    counter the inner exit of `enter enter exit` leaves 1, not 0 -/
+example : lockCount 1 (-1) 0 [.enter, .enter, .exit] = 1 ∧ openBlocks 0 [.enter, .enter, .exit] = some 1 := by decide
+
 /-- every referenced node object stays the cached object for its element, with its chains of text
     nodes untouched (so navigation returns the very same objects) -/
 theorem c04_referenced_stay (s : State) (w : Wrapper) (hw : w ∈ s.cache) (h : anyReferenced w = true) :
